@@ -691,6 +691,8 @@ host_write_s2d	(SF_PRIVATE *psf, const short *ptr, sf_count_t len)
 
 	scale = (psf->scale_int_float == 0) ? 1.0 : 1.0 / 0x8000 ;
 	bufferlen = ARRAY_LEN (ubuf.dbuf) ;
+	/* Whole frames only : the PEAK update counts channels from the start of the buffer. */
+	bufferlen -= bufferlen % psf->sf.channels ;
 
 	while (len > 0)
 	{	if (len < bufferlen)
@@ -723,6 +725,8 @@ host_write_i2d	(SF_PRIVATE *psf, const int *ptr, sf_count_t len)
 
 	scale = (psf->scale_int_float == 0) ? 1.0 : 1.0 / (8.0 * 0x10000000) ;
 	bufferlen = ARRAY_LEN (ubuf.dbuf) ;
+	/* Whole frames only : the PEAK update counts channels from the start of the buffer. */
+	bufferlen -= bufferlen % psf->sf.channels ;
 
 	while (len > 0)
 	{	if (len < bufferlen)
@@ -752,6 +756,8 @@ host_write_f2d	(SF_PRIVATE *psf, const float *ptr, sf_count_t len)
 	sf_count_t	total = 0 ;
 
 	bufferlen = ARRAY_LEN (ubuf.dbuf) ;
+	/* Whole frames only : the PEAK update counts channels from the start of the buffer. */
+	bufferlen -= bufferlen % psf->sf.channels ;
 
 	while (len > 0)
 	{	if (len < bufferlen)
@@ -935,6 +941,8 @@ replace_write_s2d	(SF_PRIVATE *psf, const short *ptr, sf_count_t len)
 
 	scale = (psf->scale_int_float == 0) ? 1.0 : 1.0 / 0x8000 ;
 	bufferlen = ARRAY_LEN (ubuf.dbuf) ;
+	/* Whole frames only : the PEAK update counts channels from the start of the buffer. */
+	bufferlen -= bufferlen % psf->sf.channels ;
 
 	while (len > 0)
 	{	if (len < bufferlen)
@@ -968,6 +976,8 @@ replace_write_i2d	(SF_PRIVATE *psf, const int *ptr, sf_count_t len)
 
 	scale = (psf->scale_int_float == 0) ? 1.0 : 1.0 / (8.0 * 0x10000000) ;
 	bufferlen = ARRAY_LEN (ubuf.dbuf) ;
+	/* Whole frames only : the PEAK update counts channels from the start of the buffer. */
+	bufferlen -= bufferlen % psf->sf.channels ;
 
 	while (len > 0)
 	{	if (len < bufferlen)
@@ -999,6 +1009,8 @@ replace_write_f2d	(SF_PRIVATE *psf, const float *ptr, sf_count_t len)
 	sf_count_t	total = 0 ;
 
 	bufferlen = ARRAY_LEN (ubuf.dbuf) ;
+	/* Whole frames only : the PEAK update counts channels from the start of the buffer. */
+	bufferlen -= bufferlen % psf->sf.channels ;
 
 	while (len > 0)
 	{	if (len < bufferlen)
